@@ -13,7 +13,9 @@
 (*   var n | wild | lit v (literals and `literally e`: match by ==)        *)
 (*   seq items delim   sequence pattern; delim = written with [ ]          *)
 (*   splat p           only as an item:  ...p  takes the middle as a list  *)
-(*   dflt p dv         only as an item:  p = dv  (lambda parameters)       *)
+(*   dflt p dv         only as an item:  (p = dv), bare  p = dv  in a       *)
+(*                     lambda parameter list: takes dv when no value is    *)
+(*                     left for it                                         *)
 (*   or a b | and a b                                                      *)
 (*   ann p T           p: T  (covers every name of p unless p is [..])     *)
 (*   struct name items     Foo(a, b)                                       *)
@@ -156,7 +158,12 @@ MatchAll(items, vs, rt) ==
          IN IF ~r.ok THEN r ELSE Join(r, MatchAll(Tail(items), Tail(vs), rt))
 
 \* a sequence of item patterns against a sequence of values: equal length, except that one
-\* ...splat takes what the others leave, and trailing defaulted items may stay without a value
+\* ...splat takes what the others leave, and trailing defaulted items may stay without a value.
+\* Which defaults are used is decided from the number m of values alone: the defaulted item j
+\* uses its default iff m does not exceed the number of NON-SPLAT items before it (no value is
+\* left for its position); the defaults used are appended to the values, then the items before
+\* the splat take the first values, the items after it the last ones, the splat the middle.
+\*   \a, ...b, c = 5 :  (1) -> a=1 b=[] c=5 ;  (1, 2) -> a=1 b=[] c=2 ;  (1, 2, 3) -> a=1 b=[2] c=3
 MatchSeq(items, vs, rt) ==
     LET n == Len(items)
         m == Len(vs)
